@@ -36,8 +36,8 @@ CLAIMED["C08"] = dict(
 
 TB = "Trusted: Coq kernel + vm_compute (no axioms: every theorem is 'Closed under the global context'), the Python harness that drives the real classes and renders what they did as Gallina literals, "
 CLAIMED["C03"] = dict(
-    text="Coq theorems, for every wiring / answer order / history: route() reaches exactly the wired input ports (C03_route_exact, C03_route_nothing_else); within a tick the changes handed to a component are exactly what its upstreams answered earlier in that tick, whatever the interleaving (C03_within_tick); a device component's cumulative inputs hold per port the latest value ever received (C03_cumulative_latest); and composed on the whole-simulation model for flat simulations: along any multi-tick history with callbacks and interrupts at any speed, in every state the master reaches each wired input port holds the value its source reported last, and every update is handed exactly those inputs - including values produced earlier in the same tick (C03_sim_update_latest, C03_sim_run_latest, by a mid-tick invariant over the topological order). Whole simulations (flat and nested to depth 3) of the real schedulers/components are compared inside Coq with Model/Sim.v, and a Coq-defined oracle (latest_ok, code 81) decides on every observed update that the inputs equal the latest reported value of the resolved upstream device output along the flattened wiring - through external/exposed ports in both directions.",
-    note=TB + "the virtual-time event loop. PARTIAL: the composition through system-simulation boundaries is not a theorem; it is decided per run by the oracle. Values are integers; device reports have unique port names (Python dicts).",
+    text="Coq theorems, for every wiring / answer order / history: route() reaches exactly the wired input ports (C03_route_exact, C03_route_nothing_else); within a tick the changes handed to a component are exactly what its upstreams answered earlier in that tick, whatever the interleaving (C03_within_tick); a device component's cumulative inputs hold per port the latest value ever received (C03_cumulative_latest); and composed on the whole-simulation model for flat simulations: along any multi-tick history with callbacks and interrupts at any speed, in every state the master reaches each wired input port holds the value its source reported last, and every update is handed exactly those inputs - including values produced earlier in the same tick (C03_sim_update_latest, C03_sim_run_latest, by a mid-tick invariant over the topological order); and through the boundary of a system simulation (C03_through_system_boundary, C03_resolved_wiring): for every top level of devices and one system simulation of devices, every state a run of the master reaches on the NESTED configuration has every resolved wire - outer device to inner device through an external port, inner device to outer device through an exposed port, top-level and inner wires - carrying the latest report of its source (the nested run is proved to be in lockstep with the run of the inlined configuration, which has the invariant). Whole simulations (flat and nested to depth 3) of the real schedulers/components are compared inside Coq with Model/Sim.v, and a Coq-defined oracle (latest_ok, code 81) decides on every observed update that the inputs equal the latest reported value of the resolved upstream device output along the flattened wiring - through external/exposed ports in both directions.",
+    note=TB + "the virtual-time event loop. PARTIAL: through system-simulation boundaries the theorem covers one level of nesting without interrupts; deeper nestings, sibling systems and interrupts are decided per run by the oracle. Values are integers; device reports have unique port names (Python dicts).",
     technique="Coq proof (route/ticker/component layers + whole-simulation invariant) + whole-simulation correspondence + Coq oracle on observed runs",
     ref="5/C03")
 CLAIMED["C04"] = dict(
